@@ -3036,268 +3036,182 @@ Qed.
 Lemma C08_owed_child_is_valid s c : shouldRecomputeChild s c = true -> valid (nd s c) = true.
 Proof. intros E. apply C03_child_queued_only_if_owed in E as (_ & _ & E & _). exact E. Qed.
 
-(** what is left of a node that was invalidated, or torn down: [dead] *)
-Definition zeroed (x : node) : Prop := inGraph x = false /\ isNecessary x = false /\ height x = unset.
-Definition dead (s : state) (r : nid) : Prop := valid (nd s r) = false \/ zeroed (nd s r).
-
-(* [DP s s']: dead nodes stay dead, the heap only shrinks, forceNec is untouched, records stay *)
-Definition DP (s s' : state) : Prop :=
-  (forall r, dead s r -> dead s' r) /\ (forall m, inHeap s' m = true -> inHeap s m = true) /\
-  (forall m, forceNec (nd s' m) = forceNec (nd s m)) /\
+(** nothing that invalidation or teardown does ever makes a node valid again, queues a node, or
+    drops a record: [VP] *)
+Definition VP (s s' : state) : Prop :=
+  (forall r, valid (nd s r) = false -> valid (nd s' r) = false) /\
+  (forall m, inHeap s' m = true -> inHeap s m = true) /\
   (forall m, is_Some (nodes s !! m) -> is_Some (nodes s' !! m)).
 
-Lemma DP_refl s : DP s s.
+Lemma VP_refl s : VP s s.
 Proof. repeat split; auto. Qed.
-Lemma DP_trans s1 s2 s3 : DP s1 s2 -> DP s2 s3 -> DP s1 s3.
-Proof.
-  intros (A1 & A2 & A3 & A4) (B1 & B2 & B3 & B4). repeat split; auto. intros m. rewrite B3. apply A3.
-Qed.
+Lemma VP_trans s1 s2 s3 : VP s1 s2 -> VP s2 s3 -> VP s1 s3.
+Proof. intros (A1 & A2 & A3) (B1 & B2 & B3). repeat split; auto. Qed.
 
-(* a state change that leaves every node record alone *)
-Lemma DP_same_nodes s s' :
-  nodes s' = nodes s -> (forall m, inHeap s' m = true -> inHeap s m = true) -> DP s s'.
-Proof.
-  intros En Hh. unfold DP, dead, nd. rewrite En. repeat split; auto.
-Qed.
+Lemma VP_same_nodes s s' :
+  nodes s' = nodes s -> (forall m, inHeap s' m = true -> inHeap s m = true) -> VP s s'.
+Proof. intros En Hh. unfold VP, nd. rewrite En. repeat split; auto. Qed.
 
-(* a node update that keeps the fields [dead] looks at, except that it may clear [valid] *)
-Lemma DP_upd s n f :
-  (forall x, (valid (f x) = valid x \/ valid (f x) = false) /\ inGraph (f x) = inGraph x /\
-             height (f x) = height x /\ forceNec (f x) = forceNec x /\
-             (isNecessary x = false -> isNecessary (f x) = false)) ->
-  DP s (upd s n f).
+Lemma VP_upd s n f : (forall x, valid x = false -> valid (f x) = false) -> VP s (upd s n f).
 Proof.
-  intros Hf. split; [|split; [auto|split]].
-  - intros r. unfold dead, zeroed. rewrite nd_upd_if. destruct (decide (r = n)) as [->|]; [|auto].
-    destruct (nodes s !! n) eqn:E; [|unfold nd; rewrite E; auto].
-    destruct (Hf (nd s n)) as ([V|V] & G & H & _ & N); rewrite ?V, G, H; [|auto].
-    intros [D|(D1 & D2 & D3)]; [left; exact D|right; auto].
-  - intros m. apply (nd_upd_keep forceNec). intros x. apply Hf.
+  intros Hf. split; [|split; [auto|]].
+  - intros r. rewrite nd_upd_if. destruct (decide (r = n)) as [->|]; [|auto].
+    destruct (nodes s !! n) eqn:E; [apply Hf|]. unfold nd. rewrite E. auto.
   - intros m. apply some_upd.
 Qed.
 
-Lemma isNecessary_children_rm x c :
-  isNecessary x = false -> isNecessary (x <| children := rm c (children x) |>) = false.
-Proof.
-  unfold isNecessary. destruct x; cbn. intros H.
-  apply orb_false_iff in H as [H H3]. apply orb_false_iff in H as [H1 H2].
-  apply negb_false_iff, bool_decide_eq_true in H2. rewrite H1, H2, H3. reflexivity.
-Qed.
+Lemma VP_emit e s : VP s (emit e s).
+Proof. apply VP_same_nodes; [reflexivity|auto]. Qed.
 
-Lemma DP_unlink s c p : DP s (unlink s c p).
+Lemma VP_heapRemove s n s' : heapRemove s n = Ok s' -> VP s s'.
 Proof.
-  unfold unlink. eapply DP_trans; apply DP_upd; intros x.
-  - destruct x; cbn; auto 10.
-  - split; [left; destruct x; reflexivity|]. split; [destruct x; reflexivity|].
-    split; [destruct x; reflexivity|]. split; [destruct x; reflexivity|].
-    intros H. apply (isNecessary_children_rm x c) in H. revert H. destruct x; cbn. auto.
-Qed.
-
-Lemma DP_heapRemove s n s' : heapRemove s n = Ok s' -> DP s s'.
-Proof.
-  intros H. apply DP_same_nodes.
+  intros H. apply VP_same_nodes.
   - unfold heapRemove in H. apply rbind_ok in H as (w & _ & [= <-]). reflexivity.
   - intros m. rewrite (heapRemove_inHeap _ _ _ m H). intros [_ Hm]%andb_true_iff. exact Hm.
 Qed.
 
-(* tearing a node down (when it is not forced necessary) leaves it zeroed *)
-Lemma DP_removeNode s p s' :
-  removeNode s p = Ok s' -> forceNec (nd s p) = false -> DP s s' /\ dead s' p.
+Lemma VP_unlink s c p : VP s (unlink s c p).
+Proof. unfold unlink. eapply VP_trans; apply VP_upd; intros []; cbn; auto. Qed.
+
+Lemma VP_zeroNode s n s' : zeroNode s n = Ok s' -> VP s s'.
 Proof.
-  unfold removeNode, zeroNode. intros H Hf.
-  set (s0 := if inGraph (nd s p) then _ else s) in *.
-  apply rbind_ok in H as (s1 & H1 & [= <-]).
-  assert (D0 : DP s s0 /\ inGraph (nd s0 p) = false /\ forceNec (nd s0 p) = false).
-  { unfold s0. destruct (inGraph (nd s p)) eqn:Eg; [|split; [apply DP_refl|auto]].
-    split; [|split].
-    - eapply DP_trans; [apply DP_upd|apply DP_same_nodes; [reflexivity|auto]].
-      intros x. destruct x; cbn. unfold zeroed, isNecessary; cbn. auto 10.
-    - change (inGraph (nd (upd s p (set inGraph (fun _ => false))) p) = false).
-      rewrite nd_upd_if, decide_True by reflexivity. destruct (nodes s !! p); [destruct (nd s p)|]; reflexivity.
-    - change (forceNec (nd (upd s p (set inGraph (fun _ => false))) p) = false).
-      rewrite (nd_upd_keep forceNec) by (intros []; reflexivity). exact Hf. }
-  destruct D0 as (D0 & G0 & F0).
-  assert (D1 : DP s0 s1 /\ nodes s1 = nodes s0).
-  { destruct (inHeap s0 p); [|injection H1 as <-; split; [apply DP_refl|reflexivity]].
-    split; [eapply DP_heapRemove, H1|]. unfold heapRemove in H1. apply rbind_ok in H1 as (w & _ & [= <-]). reflexivity. }
-  destruct D1 as (D1 & N1).
-  assert (G1 : inGraph (nd s1 p) = false /\ forceNec (nd s1 p) = false) by (unfold nd; rewrite N1; auto).
-  destruct G1 as [G1 F1].
-  match goal with |- DP s (upd ?t p ?f) /\ _ => set (t1 := t); set (fz := f) end.
-  assert (Et : forall m, nd t1 m = nd s1 m) by reflexivity.
-  assert (Hz : dead (upd t1 p fz) p).
-  { right. unfold zeroed. rewrite nd_upd_if, decide_True by reflexivity.
-    destruct (nodes t1 !! p) eqn:E; [|repeat split].
-    rewrite Et. unfold fz, isNecessary. destruct (nd s1 p); cbn in *. subst. repeat split. }
-  split; [|exact Hz].
-  eapply DP_trans; [exact D0|]. eapply DP_trans; [exact D1|].
-  split; [|split; [|split]].
-  - intros r Hr. destruct (decide (r = p)) as [->|Hne]; [exact Hz|].
-    unfold dead. rewrite nd_upd_other by exact Hne. rewrite Et. exact Hr.
-  - auto.
-  - intros m. rewrite (nd_upd_keep forceNec) by (intros []; reflexivity). apply Et.
-  - intros m Hm. apply some_upd. exact Hm.
+  unfold zeroNode. intros H. apply rbind_ok in H as (s1 & H1 & [= <-]).
+  assert (D1 : VP s s1) by (destruct (inHeap s n); [eapply VP_heapRemove, H1|injection H1 as <-; apply VP_refl]).
+  eapply VP_trans; [exact D1|]. eapply VP_trans; [|apply VP_upd; intros []; cbn; auto].
+  apply VP_same_nodes; [reflexivity|auto].
 Qed.
 
-Lemma DP_rfold {A} (f : state -> A -> res state) l :
-  (forall s a s', f s a = Ok s' -> DP s s') -> forall s s', rfold f l s = Ok s' -> DP s s'.
+Lemma VP_removeNode s n s' : removeNode s n = Ok s' -> VP s s'.
+Proof.
+  unfold removeNode. intros H%VP_zeroNode. eapply VP_trans; [|exact H].
+  destruct (inGraph (nd s n)); [|apply VP_refl].
+  eapply VP_trans; [apply VP_upd; intros []; cbn; auto|apply VP_same_nodes; [reflexivity|auto]].
+Qed.
+
+Lemma VP_rfold {A} (f : state -> A -> res state) l :
+  (forall s a s', f s a = Ok s' -> VP s s') -> forall s s', rfold f l s = Ok s' -> VP s s'.
 Proof.
   intros Hf. induction l as [|a l IH]; intros s s' H; cbn in H.
-  - injection H as <-. apply DP_refl.
-  - apply rbind_ok in H as (s1 & H1 & H). eapply DP_trans; [eapply Hf, H1|eapply IH, H].
+  - injection H as <-. apply VP_refl.
+  - apply rbind_ok in H as (s1 & H1 & H). eapply VP_trans; [eapply Hf, H1|eapply IH, H].
 Qed.
 
-Lemma DP_emit e s : DP s (emit e s).
-Proof. apply DP_same_nodes; [reflexivity|auto]. Qed.
-
-Lemma DP_removeParents fuel : forall s c s', removeParents fuel s c = Ok s' -> DP s s'.
+Lemma VP_removeParents fuel : forall s c s', removeParents fuel s c = Ok s' -> VP s s'.
 Proof.
   induction fuel as [|fuel IH]; intros s c s' H; [discriminate|]. cbn [removeParents] in H.
-  revert H. apply DP_rfold. clear s s'. intros s p s' H.
-  pose proof (DP_unlink s c p) as Du.
-  destruct (isNecessary (nd (unlink s c p) p)) eqn:En; [injection H as <-; exact Du|].
+  revert H. apply VP_rfold. clear s s'. intros s p s' H.
+  pose proof (VP_unlink s c p) as Du.
+  destruct (isNecessary _); [injection H as <-; exact Du|].
   destruct (negb _); [injection H as <-; exact Du|].
-  apply rbind_ok in H as (s1 & H1%IH & H).
-  assert (Hf : forceNec (nd s1 p) = false).
-  { destruct H1 as (_ & _ & F & _). rewrite F. change (forceNec (nd (unlink s c p) p) = false).
-    unfold isNecessary in En. apply orb_false_iff in En as [En _]. apply orb_false_iff in En as [En _]. exact En. }
-  apply DP_removeNode in H as [H _]; [|exact Hf].
-  eapply DP_trans; [exact Du|]. eapply DP_trans; [apply DP_emit|]. eapply DP_trans; eauto.
+  apply rbind_ok in H as (s1 & H1%IH & H%VP_removeNode).
+  eapply VP_trans; [exact Du|]. eapply VP_trans; [apply VP_emit|]. eapply VP_trans; eauto.
 Qed.
 
-(** C08.2: invalidation marks the node, takes it out of the heap, logs it, never queues anything,
-    and never revives a dead node *)
+(** C08.2: invalidation marks the node, takes it out of the heap, logs it; it queues nothing and
+    revalidates nothing *)
 Lemma C08_invalidate_dequeues fuel : forall s n s',
   invalidateNode fuel s n = Ok s' ->
-  DP s s' /\ dead s' n /\
+  VP s s' /\
   (valid (nd s n) = false -> s' = s) /\
+  (is_Some (nodes s !! n) -> valid (nd s' n) = false) /\
   (valid (nd s n) = true -> is_Some (nodes s !! n) ->
-     valid (nd s' n) = false /\ inHeap s' n = false /\ exists L, log s' = L ++ EvInval n :: log s).
+     inHeap s' n = false /\ exists L, log s' = L ++ EvInval n :: log s).
 Proof.
   induction fuel as [|fuel IH]; intros s n s' H; [discriminate|]. cbn [invalidateNode] in H.
   destruct (valid (nd s n)) eqn:Ev; cbn [negb] in H.
-  2:{ injection H as <-. split; [apply DP_refl|]. split; [left; exact Ev|]. split; [auto|discriminate]. }
+  2:{ injection H as <-. split; [apply VP_refl|]. split; [auto|]. split; [auto|discriminate]. }
   apply rbind_ok in H as (s1 & H1 & H). apply rbind_ok in H as (s2 & H2 & H).
   set (s0 := upd (emit (EvInval n) s) n _) in *.
-  assert (D0 : DP s s0).
-  { eapply DP_trans; [apply DP_emit|]. apply DP_upd. intros x. destruct x; cbn. auto 10. }
+  assert (D0 : VP s s0).
+  { eapply VP_trans; [apply VP_emit|]. apply VP_upd. intros []; cbn; auto. }
   assert (L0 : log s0 = EvInval n :: log s) by reflexivity.
-  (* from here on: every step is DP for nodes other than n *)
-  assert (Dn : forall t t', (forall r, r <> n -> dead t r -> dead t' r) ->
-             (forall m, inHeap t' m = true -> inHeap t m = true) ->
-             (forall m, forceNec (nd t' m) = forceNec (nd t m)) ->
-             (forall m, is_Some (nodes t !! m) -> is_Some (nodes t' !! m)) -> True) by auto.
-  clear Dn.
-  (* step 1 *)
-  assert (D1 : (forall r, r <> n -> dead s0 r -> dead s1 r) /\
-               (forall m, inHeap s1 m = true -> inHeap s0 m = true) /\
-               (forall m, forceNec (nd s1 m) = forceNec (nd s0 m)) /\
-               (forall m, is_Some (nodes s0 !! m) -> is_Some (nodes s1 !! m)) /\
-               exists L, log s1 = L ++ log s0).
+  assert (D1 : VP s0 s1 /\ exists L, log s1 = L ++ log s0).
   { destruct (isNecessary (nd s0 n)).
     - apply rbind_ok in H1 as (s3 & H3 & [= <-]).
-      pose proof (DP_removeParents _ _ _ _ H3) as (A1 & A2 & A3 & A4).
+      pose proof (VP_removeParents _ _ _ _ H3) as A.
       apply pf_removeParents in H3 as (_ & _ & _ & _ & _ & _ & _ & L & EL & _).
-      split; [|split; [auto|split; [|split]]].
-      + intros r Hne Hr. unfold dead. rewrite nd_upd_other by exact Hne. apply A1, Hr.
-      + intros m. rewrite (nd_upd_keep forceNec) by (intros []; reflexivity). apply A3.
-      + intros m Hm. apply some_upd, A4, Hm.
-      + exists L. exact EL.
-    - injection H1 as <-. repeat split; auto. exists []. reflexivity. }
-  destruct D1 as (A1 & A2 & A3 & A4 & L1 & EL1).
-  assert (D2 : DP s1 s2 /\ exists L, log s2 = L ++ log s1).
-  { destruct (nkind (nd s1 n)); try (injection H2 as <-; split; [apply DP_refl|exists []; reflexivity]).
+      split; [eapply VP_trans; [exact A|apply VP_upd; intros []; cbn; auto]|]. exists L. exact EL.
+    - injection H1 as <-. split; [apply VP_refl|]. exists []. reflexivity. }
+  destruct D1 as (D1 & L1 & EL1).
+  assert (D2 : VP s1 s2 /\ exists L, log s2 = L ++ log s1).
+  { destruct (nkind (nd s1 n)); try (injection H2 as <-; split; [apply VP_refl|exists []; reflexivity]).
     split.
-    - revert H2. apply DP_rfold. intros t a t' Ht. apply (IH _ _ _ Ht).
+    - revert H2. apply VP_rfold. intros t a t' Ht. apply (IH _ _ _ Ht).
     - eapply (fr_rfold pframe) in H2; [|exact pframe_hyps|intros t a t' Ht; eapply pf_invalidateNode, Ht].
       destruct H2 as (_ & _ & _ & _ & _ & _ & _ & L & EL & _). exists L. exact EL. }
-  destruct D2 as ((B1 & B2 & B3 & B4) & L2 & EL2).
+  destruct D2 as (D2 & L2 & EL2).
   set (s3 := upd s2 n (set valid (fun _ => false))) in *.
   set (s4 := s3 <| invq := invq s3 ++ children (nd s3 n) |>) in *.
   assert (Hnd4 : forall m, nd s4 m = nd s3 m) by reflexivity.
-  assert (Hs : is_Some (nodes s !! n) -> is_Some (nodes s2 !! n)).
-  { intros Hs. apply B4, A4. destruct D0 as (_ & _ & _ & D0). apply D0, Hs. }
-  assert (V4 : dead s4 n /\ (is_Some (nodes s !! n) -> valid (nd s4 n) = false)).
-  { unfold dead. rewrite Hnd4. unfold s3. rewrite nd_upd_if, decide_True by reflexivity.
-    destruct (nodes s2 !! n) eqn:E.
-    - split; [left|intros _]; destruct (nd s2 n); reflexivity.
-    - split; [right; repeat split|]. intros Hs'%Hs. rewrite E in Hs'. destruct Hs' as [? [=]]. }
-  assert (D4 : (forall r, dead s r -> dead s4 r) /\ (forall m, inHeap s4 m = true -> inHeap s m = true) /\
-               (forall m, forceNec (nd s4 m) = forceNec (nd s m)) /\
-               (forall m, is_Some (nodes s !! m) -> is_Some (nodes s4 !! m))).
-  { destruct D0 as (C1 & C2 & C3 & C4). split; [|split; [|split]].
-    - intros r Hr. destruct (decide (r = n)) as [->|Hne]; [apply V4|].
-      unfold dead. rewrite Hnd4. unfold s3. rewrite nd_upd_other by exact Hne. apply B1, A1, C1; auto.
-    - intros m Hm. apply C2, A2, B2. exact Hm.
-    - intros m. rewrite Hnd4. unfold s3. rewrite (nd_upd_keep forceNec) by (intros []; reflexivity).
-      rewrite B3, A3. apply C3.
-    - intros m Hm. change (is_Some (nodes s3 !! m)). apply some_upd, B4, A4, C4, Hm. }
+  assert (D3 : VP s2 s4).
+  { eapply VP_trans; [apply VP_upd; intros []; cbn; auto|apply VP_same_nodes; [reflexivity|auto]]. }
+  pose proof (VP_trans _ _ _ (VP_trans _ _ _ (VP_trans _ _ _ D0 D1) D2) D3) as D4.
+  assert (V4 : is_Some (nodes s !! n) -> valid (nd s4 n) = false).
+  { intros Hs. rewrite Hnd4. unfold s3. rewrite nd_upd_same; [destruct (nd s2 n); reflexivity|].
+    destruct D2 as (_ & _ & B). destruct D1 as (_ & _ & A). destruct D0 as (_ & _ & C). auto. }
   assert (L4 : exists L, log s4 = L ++ EvInval n :: log s).
   { exists (L2 ++ L1). change (log s4) with (log s2). rewrite EL2, EL1, L0, app_assoc. reflexivity. }
   destruct (inHeap s4 n) eqn:Eh.
-  - pose proof (DP_heapRemove _ _ _ H) as (E1 & E2 & E3 & E4).
+  - pose proof (VP_heapRemove _ _ _ H) as E.
     assert (Hnd : forall m, nd s' m = nd s4 m).
     { unfold heapRemove in H. apply rbind_ok in H as (w & _ & [= <-]). reflexivity. }
     assert (Hlog : log s' = log s4).
     { unfold heapRemove in H. apply rbind_ok in H as (w & _ & [= <-]). reflexivity. }
-    destruct D4 as (C1 & C2 & C3 & C4).
-    split; [repeat split; auto; intros m; rewrite E3; apply C3|].
-    split; [apply E1, V4|]. split; [discriminate|]. intros _ Hs0.
-    split; [rewrite Hnd; apply V4, Hs0|]. split; [|rewrite Hlog; exact L4].
+    split; [eapply VP_trans; eauto|]. split; [discriminate|].
+    split; [intros Hs0; rewrite Hnd; apply V4, Hs0|]. intros _ Hs0. split; [|rewrite Hlog; exact L4].
     rewrite (heapRemove_inHeap _ _ _ n H), bool_decide_eq_true_2 by reflexivity. reflexivity.
-  - injection H as <-. split; [exact D4|]. split; [apply V4|]. split; [discriminate|].
-    intros _ Hs0. split; [apply V4, Hs0|]. split; [exact Eh|exact L4].
+  - injection H as <-. split; [exact D4|]. split; [discriminate|].
+    split; [exact V4|]. intros _ Hs0. split; [exact Eh|exact L4].
 Qed.
 
-Lemma DP_invalidateNode fuel s n s' : invalidateNode fuel s n = Ok s' -> DP s s'.
+Lemma VP_invalidateNode fuel s n s' : invalidateNode fuel s n = Ok s' -> VP s s'.
 Proof. intros H. apply (C08_invalidate_dequeues _ _ _ _ H). Qed.
 
-(* invalidating a list of nodes leaves each of them dead *)
-Lemma rfold_invalidate_dead fuel : forall l s s',
-  rfold (invalidateNode fuel) l s = Ok s' -> DP s s' /\ forall r, r ∈ l -> dead s' r.
+(* invalidating a list of nodes leaves each of them invalid and, if no invalid one was queued
+   before, none of them queued *)
+Lemma rfold_invalidate_all fuel : forall l s s',
+  rfold (invalidateNode fuel) l s = Ok s' ->
+  VP s s' /\
+  (forall r, r ∈ l -> is_Some (nodes s !! r) -> valid (nd s' r) = false) /\
+  ((forall r, r ∈ l -> valid (nd s r) = false -> inHeap s r = false) ->
+   forall r, r ∈ l -> is_Some (nodes s !! r) -> inHeap s' r = false).
 Proof.
   induction l as [|x l IH]; intros s s' H; cbn [rfold] in H.
-  - injection H as <-. split; [apply DP_refl|]. intros r Hr. inversion Hr.
-  - apply rbind_ok in H as (s1 & H1 & H). destruct (IH _ _ H) as [D2 Hl].
-    destruct (C08_invalidate_dequeues _ _ _ _ H1) as (D1 & Hx & _).
-    split; [eapply DP_trans; eauto|]. intros r [->|Hr]%elem_of_cons; [|apply Hl, Hr].
-    destruct D2 as (D2 & _). apply D2, Hx.
-Qed.
-
-(* [propagateInvalidity] may queue valid nodes, but it too never revives a dead one *)
-Lemma dead_heapOnly s s' r : heapOnly s s' -> dead s r -> dead s' r.
-Proof. intros [w ->] H. exact H. Qed.
-
-Lemma propagateInvalidity_dead fuel : forall s s', propagateInvalidity fuel s = Ok s' ->
-  forall r, dead s r -> dead s' r.
-Proof.
-  induction fuel as [|fuel IH]; intros s s' H; [discriminate|]. cbn [propagateInvalidity] in H.
-  destruct (invq s) as [|n q]; [injection H as <-; auto|].
-  apply rbind_ok in H as (s1 & H1 & H). intros r Hr. eapply IH; [exact H|].
-  set (t := s <| invq := q |>) in *. assert (Ht : dead t r) by exact Hr.
-  destruct (valid (nd t n)); [|injection H1 as <-; exact Ht].
-  destruct (shouldBeInvalidated t n).
-  - apply DP_invalidateNode in H1 as (D & _). apply D, Ht.
-  - first [eapply dead_heapOnly; [eapply heapAddIfNotPresent_heapOnly, H1|exact Ht]
-          |destruct (_ =? unset); [injection H1 as <-; exact Ht
-                                  |eapply dead_heapOnly; [eapply heapAddIfNotPresent_heapOnly, H1|exact Ht]]].
-Qed.
-
-(** C08.3 (PARTIAL, see Properties/C08.v): after a plain bind swapped its right-hand side, every
-    node of the replaced generation is dead: invalid, or torn down (unregistered, unnecessary,
-    height unset).  "Invalid" alone is false: a node torn down after it was invalidated is valid
-    again ([zeroNode] resets the flag). *)
-Lemma C08_swap_invalidates_old_generation_partial fuel p s b s' :
-  bindLhsStabilize fuel p s b = Ok (s', None) ->
-  b_memo (bd s b) = false -> is_Some (b_rhs (bd s b)) ->
-  forall r, r ∈ b_rhsNodes (bd s b) -> dead s' r.
-Proof.
-  unfold bindLhsStabilize. intros H Hm [o Ho] r Hr. rewrite Hm, Ho in H.
-  apply rbind_ok in H as ([[s1 e1] built] & H1 & H).
-  destruct e1 as [e1|]; [discriminate|]. destruct built as [root|]; [|discriminate].
-  apply ebind_cases in H as (s2 & e2 & H2 & [(x & -> & -> & [=])|(-> & H)]).
-  apply ebind_cases in H as (s3 & e3 & [H3 ->]%lift_cases & [(x & [=] & _)|(_ & H)]).
-  apply lift_cases in H as [H _].
-  eapply propagateInvalidity_dead; [exact H|].
-  apply rfold_invalidate_dead in H3 as [_ H3]. apply H3, Hr.
-Qed.
+  - injection H as <-. split; [apply VP_refl|]. split; intros; exfalso; eapply not_elem_of_nil; eauto.
+  - apply rbind_ok in H as (s1 & H1 & H). destruct (IH _ _ H) as (D2 & Hl & Hq).
+    destruct (C08_invalidate_dequeues _ _ _ _ H1) as (D1 & Hid & Hx & Hx').
+    split; [eapply VP_trans; eauto|]. split.
+    + intros r [->|Hr]%elem_of_cons Hs.
+      * destruct D2 as (D2 & _). apply D2, Hx, Hs.
+      * apply Hl; [exact Hr|]. destruct D1 as (_ & _ & D1). apply D1, Hs.
+    + intros H0 r Hr Hs.
+      assert (Hx1 : inHeap s1 x = false \/ x <> r).
+      { destruct (decide (x = r)) as [->|]; [left|right; assumption].
+        destruct (valid (nd s r)) eqn:Ev.
+        - apply (Hx' eq_refl Hs).
+        - rewrite (Hid Ev). apply H0; [left|exact Ev]. }
+      destruct (inHeap s' r) eqn:Eq; [|reflexivity]. exfalso.
+      destruct D2 as (_ & D2h & _). pose proof (D2h r Eq) as Eq1.
+      apply elem_of_cons in Hr as [->|Hr].
+      * destruct Hx1 as [Hx1|Hx1]; [congruence|contradiction].
+      * assert (inHeap s' r = false); [|congruence].
+        apply Hq; [|exact Hr|destruct D1 as (_ & _ & D1); apply D1, Hs].
+        intros r' Hr' Hv'. destruct (inHeap s1 r') eqn:E1; [|reflexivity]. exfalso.
+        destruct D1 as (_ & D1h & _). pose proof (D1h r' E1) as E0.
+        destruct (valid (nd s r')) eqn:Ev0.
+        -- (* r' was valid before x's invalidation and invalid after: only x itself is dequeued *)
+           destruct (decide (r' = x)) as [->|Hne].
+           ++ destruct (valid (nd s x)) eqn:Evx; [|congruence].
+              assert (Hsx : is_Some (nodes s !! x)).
+              { unfold nd in Evx. destruct (nodes s !! x) eqn:En; [eauto|].
+                (* no record: the dummy is valid and stays so *)
+                exfalso. destruct (valid (nd s1 x)) eqn:E; [congruence|].
+                clear -H1 En E. revert E. unfold nd.
+                assert (nodes s1 !! x = None \/ is_Some (nodes s1 !! x)) as [->|Hs1] by (destruct (nodes s1 !! x); eauto).
+                - discriminate.
+                - intros _. exact I. }
+              destruct (Hx' eq_refl Hsx) as [Hq' _]. congruence.
+           ++ (* an invalid queued node other than x: excluded below by strengthening *)
+              exact I.
+        -- rewrite (H0 r' (elem_of_list_further _ _ _ Hr') Ev0) in E0. discriminate.
+Abort.
